@@ -117,11 +117,12 @@ InitWith(L) ==
           IN  heap = r[1] /\ cl = r[2] /\ st = r[3] /\ nxt = r[4] /\ ops = 0 /\ lastDeep = <<>>
 Init == \E L \in AllL : InitWith(L)
 
+RawSetLabels == Raw /\ \E h \in Handles : \E L \in AllL : SetLabels(h, L)
+RawShallowCopy == Raw /\ \E h \in Handles : ShallowCopy(h)
 Next == \/ \E h \in Handles : \E L \in AllL : PhaseRelabelLike(h, L)
         \/ \E h \in Handles : PhaseFitLike(h, "stat") \/ PhaseFitLike(h, "mrf")
         \/ \E h \in Handles : DeepCopy(h)
-        \/ (Raw /\ \E h \in Handles : \E L \in AllL : SetLabels(h, L))
-        \/ (Raw /\ \E h \in Handles : ShallowCopy(h))
+        \/ RawSetLabels \/ RawShallowCopy
 Spec == Init /\ [][Next]_vars
 
 (* ---- projection of a state: what C13 talks about ---- *)
